@@ -274,6 +274,16 @@ R19 = {
  "C19": "every division by the chunk size is guarded against the empty set",
 }
 
+# Clauses added in round 21 (DESIGN.md §10.20).
+R21 = {
+ "C05": "every letter of a built-in complementing alphabet has a partner in it and the pairing is a case-preserving involution (constant tables)",
+ "C06": "Trim's results and EAt probes are positions: no value on the way merges a position with a subscript",
+ "C09": "illegal letters are rejected in a loop over each sequence alone, not only inside the nested fill loop",
+ "C16": "the end of a merged pile is extended from every interval it absorbs, not only the first",
+ "C17": "on the case-insensitive path the loops that mark letters valid walk both the lower-case and the upper-case image of the definition",
+ "C10": "as C17 (the scanner relies on the alphabet's tables)",
+}
+
 NOT_APPLICABLE = {
 }
 
@@ -328,6 +338,10 @@ def main():
                 tech = tech + "; " + R19[pid]
                 text = text + " Round 19 (DESIGN §10.18) adds: " + R19[pid] + "."
                 ref = ref + ", §10.18"
+            if pid in R21:
+                tech = tech + "; " + R21[pid]
+                text = text + " Round 21 (DESIGN §10.20) adds: " + R21[pid] + "."
+                ref = ref + ", §10.20"
             text = text + " The thorough tier also replays the independently written behaviour-preserving refactorings of /verif/benign (DESIGN §10.8, §10.9, §10.11, §10.13, §10.15, §10.17, §10.19) and fails if one of them is reported."
             checks.append({
                 "property_id": pid,
